@@ -48,10 +48,10 @@ class Enum:
 
 
 class Closure:
-    __slots__ = ("span", "caps")
+    __slots__ = ("span", "caps", "parent")
 
-    def __init__(self, span, caps):
-        self.span, self.caps = span, caps
+    def __init__(self, span, caps, parent=None):
+        self.span, self.caps, self.parent = span, caps, parent     # parent: name of the body that created the closure value
 
     def __repr__(self):
         return f"Closure({self.span})"
@@ -98,7 +98,7 @@ def clone(v):
     if isinstance(v, Enum):
         return Enum(v.discr, {k: clone(x) for k, x in v.v.items()}, v.name)
     if isinstance(v, Closure):
-        return Closure(v.span, {k: clone(x) for k, x in v.caps.items()})
+        return Closure(v.span, {k: clone(x) for k, x in v.caps.items()}, v.parent)
     if isinstance(v, Native) and v.kind == "map":
         return Native("map", {k: {"present": e["present"], "val": clone(e["val"])} for k, e in v.data.items()})
     return v
@@ -1031,7 +1031,7 @@ class Engine:
         if c.startswith("ZeroSized: "):
             t = c[11:].strip()
             if t.startswith("{closure@"):
-                return Closure(t, {})
+                return Closure(t, {}, f.body.name if f is not None else None)
             return FnItem(t)
         ma = re.match(r"^\{(alloc\d+)(?:: .*)?\}$", c)
         if ma:
@@ -1040,6 +1040,18 @@ class Engine:
                 return self.static_objs[name.split("::")[-1]]
             if any(p.search(c) for p in self.opaque):
                 return Opaque(c)
+            if name:
+                # a `static ITEM: T = <initializer>` of the dump: its initializer is evaluated on first use, the value lives in the
+                # scenario's state from then on (interior mutability of the static is kept across uses)
+                crate = getattr(f.body, "crate", None)
+                key = f"static:{crate}:{name}"
+                if key in ctx.statics:
+                    return Ptr(("static", key))
+                cands = [b for n, b in self.prog.bodies.items() if b.kind == "static" and (n == name or n.endswith("::" + name)) and (getattr(b, "crate", None) == crate or crate is None)]
+                if len(cands) == 1:
+                    v = self.eval_const_body(ctx, cands[0])
+                    ctx.statics[key] = v
+                    return Ptr(("static", key))
             raise Unsupported(f"static allocation {c} ({name}) has no object in this scenario")
         mm = re.search(r"(\w+)::promoted\[(\d+)\]$", strip_generics(c))
         if mm:
@@ -1157,7 +1169,7 @@ class Engine:
             v = self.eval_operand(ctx, f, rv[1])
             return Agg({i: clone(v) for i in range(n)})
         if k == "closure":
-            return Closure(rv[1], {n: self.eval_operand(ctx, f, o) for n, o in rv[2]})
+            return Closure(rv[1], {n: self.eval_operand(ctx, f, o) for n, o in rv[2]}, f.body.name)
         if k == "adt" or k == "raw":
             path = rv[1]
             fields = rv[2] if k == "adt" else []
@@ -1483,7 +1495,7 @@ class Engine:
 
     def call_value(self, ctx, f, callee, args, dest, ret_bb, dty, self_arg=None):
         if isinstance(callee, Closure):
-            b = self.prog.closures.get(callee.span)
+            b = self.prog.closure_body(callee)
             if b is None:
                 raise Unsupported(f"closure body for {callee.span} not found")
             first = self_arg if self_arg is not None else callee
@@ -1619,7 +1631,7 @@ class Engine:
             callee, args = req[1], list(req[2])
             base = len(c.frames)
             if isinstance(callee, Closure):
-                b = self.prog.closures.get(callee.span)
+                b = self.prog.closure_body(callee)
                 if b is None:
                     raise Unsupported(f"closure body for {callee.span} not found")
                 first = callee
